@@ -1,4 +1,241 @@
 (** C13 - reduced-ring arithmetic is the homomorphic image of integer arithmetic.
     ONLY statements pinned here; proofs live in Dashu.Int.ModRing*. *)
-From Dashu Require Import Base.Prelude Int.ModRingSpec.
+From Dashu Require Import Base.Prelude Base.Words Int.ModRingSpec Int.ModRingSpecProofs
+  Int.ModRingPowModel Int.ModRingPowProofs Int.ModRingModel Int.ModRingProofs Int.ModRingOpsProofs
+  Int.ModRingMain Int.ModRingInst Int.ModRingInstProofs.
 Open Scope Z_scope.
+
+(** ---------------- what the statement demands of the specification ---------------- *)
+Theorem C13_spec_homomorphism : forall m a b, 0 < m ->
+  add_spec m (reduce_spec m a) (reduce_spec m b) = reduce_spec m (a + b) /\
+  sub_spec m (reduce_spec m a) (reduce_spec m b) = reduce_spec m (a - b) /\
+  mul_spec m (reduce_spec m a) (reduce_spec m b) = reduce_spec m (a * b) /\
+  neg_spec m (reduce_spec m a) = reduce_spec m (- a) /\
+  dbl_spec m (reduce_spec m a) = reduce_spec m (2 * a) /\
+  sqr_spec m (reduce_spec m a) = reduce_spec m (a * a) /\
+  0 <= reduce_spec m a < m.
+Proof. exact spec_homomorphism. Qed.
+Print Assumptions C13_spec_homomorphism.
+
+Theorem C13_spec_pow : forall m a e, 0 < m -> 0 <= e ->
+  pow_spec m (reduce_spec m a) e = reduce_spec m (a ^ e) /\ powm m a e = pow_spec m a e.
+Proof. exact spec_pow. Qed.
+Print Assumptions C13_spec_pow.
+
+Theorem C13_spec_inverse : forall m a, 0 < m ->
+  match inv_spec m a with
+  | Some x => 0 <= x < m /\ (a * x) mod m = 1 mod m /\ Z.gcd a m = 1
+  | None => Z.gcd a m <> 1
+  end.
+Proof. exact spec_inverse. Qed.
+Print Assumptions C13_spec_inverse.
+
+Theorem C13_spec_inverse_iff : forall m a, 0 < m -> ((exists x, inv_spec m a = Some x) <-> Z.gcd a m = 1).
+Proof. exact inv_spec_some_iff. Qed.
+Print Assumptions C13_spec_inverse_iff.
+
+Theorem C13_spec_inverse_unique : forall m a x y, 0 < m -> is_inverse m a x -> is_inverse m a y -> x = y.
+Proof. exact inverse_unique. Qed.
+Print Assumptions C13_spec_inverse_unique.
+
+Theorem C13_spec_inv_checker : forall m a r, 0 < m -> (inv_ok m a r = true <-> r = inv_spec m a).
+Proof. exact inv_ok_iff. Qed.
+Print Assumptions C13_spec_inv_checker.
+
+Theorem C13_spec_div : forall m a b, 0 < m ->
+  (Z.gcd b m = 1 -> exists x, is_inverse m b x /\ div_spec m a b = Ok (mul_spec m a x)) /\
+  (Z.gcd b m <> 1 -> div_spec m a b = Panic NonInvertible).
+Proof. exact div_spec_ok. Qed.
+Print Assumptions C13_spec_div.
+
+Theorem C13_spec_div_mul_back : forall m a b q, 0 < m -> div_spec m a b = Ok q -> 0 <= q < m /\ (q * b) mod m = a mod m.
+Proof. exact div_spec_mul_back. Qed.
+Print Assumptions C13_spec_div_mul_back.
+
+(** ---------------- the exponentiation algorithms of pow.rs, in any structure ---------------- *)
+(** binary method, one exponent word at a time (single / double word rings) *)
+Theorem C13_pow_binary_generic : forall w, 0 < w ->
+  forall (T : Type) (one : T) (sqr : T -> T) (mul : T -> T -> T) (R : T -> Z -> Prop),
+  R one 0 ->
+  (forall x j, 0 <= j -> R x j -> R (sqr x) (2 * j)) ->
+  (forall x y j k, 0 <= j -> 0 <= k -> R x j -> R y k -> R (mul x y) (j + k)) ->
+  forall raw exp, R raw 1 -> 0 <= exp -> R (pow_prim w T one sqr mul raw exp) exp.
+Proof. exact pow_prim_ok. Qed.
+Print Assumptions C13_pow_binary_generic.
+
+(** sliding window with a table of odd powers (multi-word rings), every window length the code can choose *)
+Theorem C13_pow_window_generic : forall w (T : Type) (one : T) (sqr : T -> T) (mul : T -> T -> T) (R : T -> Z -> Prop),
+  R one 0 ->
+  (forall x j, 0 <= j -> R x j -> R (sqr x) (2 * j)) ->
+  (forall x y j k, 0 <= j -> 0 <= k -> R x j -> R y k -> R (mul x y) (j + k)) ->
+  forall (winf : Z -> Z -> Z -> Z) raw exp, R raw 1 -> 0 <= exp ->
+  (forall wl bit, 1 <= wl < w -> 0 <= bit -> winf exp bit wl = window_val exp bit wl) -> 2 <= w ->
+  exists res, pow_large w T one sqr mul winf raw exp = Ok res /\ R res exp.
+Proof. exact pow_large_ok. Qed.
+Print Assumptions C13_pow_window_generic.
+
+(** the word-level window extraction of the code reads the window of the whole exponent *)
+Theorem C13_window_at : forall w exp bit wl, 0 < w -> 0 <= exp -> 0 <= bit -> 1 <= wl < w ->
+  window_at w exp bit wl = window_val exp bit wl.
+Proof. exact window_at_val. Qed.
+Print Assumptions C13_window_at.
+
+(** ---------------- as-is model: every word size >= 2, every modulus >= 1, all operands ---------------- *)
+Theorem C13_asis_reduce : forall w f2 f3 finv fgcd, 2 <= w -> externals_ok w f2 f3 finv fgcd ->
+  forall id m x, 1 <= m ->
+  exists r e, new_ring w id m = Ok r /\ ring_wf w r /\ r_m r = m /\ r_id r = id /\
+    reduce_asis w f2 f3 r x = Ok e /\ rep r x e /\
+    residue_asis e = Ok (x mod m) /\ modulus_asis e = m /\ 0 <= x mod m < m.
+Proof. exact asis_reduce. Qed.
+Print Assumptions C13_asis_reduce.
+
+Theorem C13_asis_ring_ops : forall w f2 f3 finv fgcd, 2 <= w -> externals_ok w f2 f3 finv fgcd ->
+  forall r x y a b, ring_wf w r -> rep r x a -> rep r y b ->
+  (exists c, add_asis w a b = Ok c /\ rep r (x + y) c) /\
+  (exists c, sub_asis w a b = Ok c /\ rep r (x - y) c) /\
+  (exists c, mul_asis w f2 f3 a b = Ok c /\ rep r (x * y) c) /\
+  (exists c, neg_asis a = Ok c /\ rep r (- x) c) /\
+  (exists c, dbl_asis w a = Ok c /\ rep r (2 * x) c) /\
+  (exists c, sqr_asis w f2 f3 a = Ok c /\ rep r (x * x) c) /\
+  eq_asis a b = Ok (x mod r_m r =? y mod r_m r).
+Proof. exact asis_ring_ops. Qed.
+Print Assumptions C13_asis_ring_ops.
+
+Theorem C13_asis_pow : forall w f2 f3 finv fgcd, 2 <= w -> externals_ok w f2 f3 finv fgcd ->
+  forall r x a e, ring_wf w r -> rep r x a -> 0 <= e ->
+  exists c, pow_asis w f2 f3 a e = Ok c /\ rep r (x ^ e) c.
+Proof. exact asis_pow. Qed.
+Print Assumptions C13_asis_pow.
+
+Theorem C13_asis_inv : forall w f2 f3 finv fgcd, 2 <= w -> externals_ok w f2 f3 finv fgcd ->
+  forall r x a, ring_wf w r -> rep r x a ->
+  (exists o, inv_asis w finv fgcd a = Ok o /\
+     match o with
+     | Some c => exists v, rep r v c /\ is_inverse (r_m r) x (v mod r_m r) /\ Z.gcd x (r_m r) = 1
+     | None => Z.gcd x (r_m r) <> 1
+     end) /\
+  ((exists c, inv_asis w finv fgcd a = Ok (Some c)) <-> Z.gcd x (r_m r) = 1).
+Proof. exact asis_inv. Qed.
+Print Assumptions C13_asis_inv.
+
+Theorem C13_asis_div : forall w f2 f3 finv fgcd, 2 <= w -> externals_ok w f2 f3 finv fgcd ->
+  forall r x y a b, ring_wf w r -> rep r x a -> rep r y b ->
+  match div_spec (r_m r) x y with
+  | Ok q => exists c, div_asis w f2 f3 finv fgcd a b = Ok c /\ rep r q c
+  | Panic p => div_asis w f2 f3 finv fgcd a b = Panic p
+  | _ => False
+  end.
+Proof. exact asis_div. Qed.
+Print Assumptions C13_asis_div.
+
+Theorem C13_asis_different_rings : forall w f2 f3 a b, r_id (e_ring a) <> r_id (e_ring b) ->
+  add_asis w a b = Panic DifferentRings /\ sub_asis w a b = Panic DifferentRings /\
+  mul_asis w f2 f3 a b = Panic DifferentRings /\ eq_asis a b = Panic DifferentRings.
+Proof. exact different_rings_panic. Qed.
+Print Assumptions C13_asis_different_rings.
+
+Theorem C13_asis_reducer : forall w f2 f3 finv fgcd, 2 <= w -> externals_ok w f2 f3 finv fgcd ->
+  forall r x y e, ring_wf w r -> 0 <= e ->
+  let f v := v mod r_m r * 2 ^ r_shift r in
+  (0 <= x -> rd_transform w f2 f3 r x = Ok (f x)) /\
+  (forall t, 0 <= t -> rd_check w r t = (t mod 2 ^ r_shift r =? 0) && (t / 2 ^ r_shift r <? r_m r)) /\
+  rd_check w r (f x) = true /\
+  rd_residue r (f x) = x mod r_m r /\ rd_modulus r = r_m r /\ rd_is_zero (f x) = (x mod r_m r =? 0) /\
+  rd_add w r (f x) (f y) = Ok (f (x + y)) /\ rd_sub r (f x) (f y) = Ok (f (x - y)) /\
+  rd_dbl w r (f x) = Ok (f (2 * x)) /\ rd_neg r (f x) = Ok (f (- x)) /\
+  rd_mul w f2 f3 r (f x) (f y) = Ok (f (x * y)) /\ rd_sqr w f2 f3 r (f x) = Ok (f (x * x)) /\
+  rd_pow w f2 f3 r (f x) e = Ok (f (x ^ e)) /\
+  exists o, rd_inv w finv fgcd r (f x) = Ok o /\
+    match o with
+    | Some t => exists v, t = f v /\ is_inverse (r_m r) x (v mod r_m r) /\ Z.gcd x (r_m r) = 1
+    | None => Z.gcd x (r_m r) <> 1
+    end.
+Proof. exact asis_reducer. Qed.
+Print Assumptions C13_asis_reducer.
+
+(** ---------------- the extracted 64-bit model the oracle runs = the specification, all inputs ---------------- *)
+Theorem C13_run_reduce : forall m a, 1 <= m -> run_reduce m a = Ok (reduce_spec m a, m).
+Proof. exact run_reduce_correct. Qed.
+Print Assumptions C13_run_reduce.
+
+Theorem C13_run_un : forall o m a, 1 <= m -> run_un o m a = Ok (un_spec o m a).
+Proof. exact run_un_correct. Qed.
+Print Assumptions C13_run_un.
+
+Theorem C13_run_bin : forall o id m a b, 1 <= m -> run_bin o id id m m a b = bin_spec o m a b.
+Proof. exact run_bin_correct. Qed.
+Print Assumptions C13_run_bin.
+
+Theorem C13_run_bin_mixed : forall o id1 id2 m1 m2 a b, 1 <= m1 -> 1 <= m2 -> id1 <> id2 ->
+  run_bin o id1 id2 m1 m2 a b =
+  match o with
+  | ODiv => if inv_spec m2 b then Panic DifferentRings else Panic NonInvertible
+  | _ => Panic DifferentRings
+  end.
+Proof. exact run_bin_mixed. Qed.
+Print Assumptions C13_run_bin_mixed.
+
+Theorem C13_run_pow : forall m a e, 1 <= m -> 0 <= e -> run_pow m a e = Ok (powm m a e) /\ powm m a e = (a ^ e) mod m.
+Proof. exact run_pow_correct. Qed.
+Print Assumptions C13_run_pow.
+
+Theorem C13_run_inv : forall m a, 1 <= m -> run_inv m a = Ok (inv_spec m a).
+Proof. exact run_inv_correct. Qed.
+Print Assumptions C13_run_inv.
+
+Theorem C13_run_eq : forall id m a b, 1 <= m -> run_eq id id m m a b = Ok (reduce_spec m a =? reduce_spec m b).
+Proof. exact run_eq_correct. Qed.
+Print Assumptions C13_run_eq.
+
+Theorem C13_run_reducer : forall o m a b, 1 <= m -> 0 <= a -> 0 <= b ->
+  exists raw, run_rd true o m a b = Ok (rd_spec o m a b, true, raw).
+Proof. exact run_rd_correct. Qed.
+Print Assumptions C13_run_reducer.
+
+Theorem C13_run_reducer_check : forall m t, 1 <= m -> 0 <= t -> run_rd_check true m t = rd_check_spec m t.
+Proof. exact run_rd_check_correct. Qed.
+Print Assumptions C13_run_reducer_check.
+
+Theorem C13_run_reducer_inv : forall m a, 1 <= m -> 0 <= a ->
+  exists o, run_rd_inv m a = Ok o /\
+    match o, inv_spec m a with
+    | Some (res, chk, _), Some iv => res = iv /\ chk = true
+    | None, None => True
+    | _, _ => False
+    end.
+Proof. exact run_rd_inv_correct. Qed.
+Print Assumptions C13_run_reducer_inv.
+
+(** ---------------- the repaired defects stay refuted on the pre-repair models ---------------- *)
+Theorem C13_F01_unit_of_modulus_one_refuted : run_pow_prefix 1 5 0 = Panic Undocumented /\ run_pow 1 5 0 = Ok 0.
+Proof. exact F01_refuted. Qed.
+Print Assumptions C13_F01_unit_of_modulus_one_refuted.
+
+Theorem C13_F02_rem_dword_unshifted_refuted : forall w f2 r x,
+  ring_wf w r -> r_kind r = KSingle -> r_shift r = 0 -> 0 <= x -> nd r <= x / 2 ^ w ->
+  s_rem_dword_prefix w f2 r x = Panic Undocumented.
+Proof. exact s_rem_dword_prefix_refuted. Qed.
+
+Theorem C13_F02_witness :
+  match i_new 0 (2 ^ 63) with
+  | Ok r => s_rem_dword_prefix W64 ex_2by1 r (2 ^ 128 - 2 ^ 64 + 1) = Panic Undocumented /\
+            s_rem_dword W64 ex_2by1 r (2 ^ 128 - 2 ^ 64 + 1) = Ok 1
+  | _ => False
+  end.
+Proof. exact F02_refuted. Qed.
+Print Assumptions C13_F02_witness.
+
+Theorem C13_F03_witness :
+  let m := 2 ^ 128 + 1 in
+  run_rd false RAdd m 1 (2 ^ 128) = Ok (m, true, m * 2 ^ 63) /\
+  run_rd true RAdd m 1 (2 ^ 128) = Ok (0, true, 0) /\
+  run_rd_check false m (m * 2 ^ 63) = Ok true /\ rd_check_spec m (m * 2 ^ 63) = Ok false.
+Proof. exact F03_refuted. Qed.
+Print Assumptions C13_F03_witness.
+Print Assumptions C13_F02_rem_dword_unshifted_refuted.
+
+Theorem C13_F03_reducer_check_refuted : forall w, 2 <= w -> forall r, ring_wf w r -> r_kind r = KLarge ->
+  rd_check_prefix w r (nd r) = true /\ rd_check w r (nd r) = false /\
+  forall x y, x + y = nd r -> rd_add_with w false r x y = Ok (nd r).
+Proof. exact rd_check_prefix_refuted. Qed.
+Print Assumptions C13_F03_reducer_check_refuted.
